@@ -445,7 +445,7 @@ def fold(ck, cases, recs, search=False):
             unknown.setdefault(w["k"] or ("class " + r["cls"]), []).append((r, w))
     for k, items in sorted(unknown.items(), key=lambda kv: str(kv[0])):
         skeletons = sorted({w["skeleton"] for _, w in items})
-        if not recognised.get(k) and all(skeletons) and len(skeletons) <= 3:
+        if not recognised.get(k) and all(skeletons) and len(skeletons) <= 5:
             # every run the model stops with this kind reports a problem at the predicted severity, none in the words
             # on record, all in the same few new words: the message was reworded (behaviour tied by status / route / file)
             ck.count("wording.reworded." + str(k), len(items))
